@@ -37,6 +37,7 @@ def run_lib(pid, tier):
     work = workdir(pid)
     res = Result(pid, tier, "model_checking")
     vh = build_harness()
+    iwe = build_iwe_binary() if pid == "C18" else None      # C18 also asks the real binary for its listings
     devs = [f["id"] for f in known_findings() if f["status"] == "open" and f["property"] in PROPS]
     fmap = {f["id"]: f for f in known_findings()}
     total = 0
@@ -44,7 +45,7 @@ def run_lib(pid, tier):
     for name, path, n in gen_histories(res, work, tier):
         total += n
         evs = [os.path.join(work, "ev_%s.%d.ndjson" % (name, i)) for i in range(shards)]
-        cmds = [[vh, "lib-replay", path, evs[i], "--shard", "%d/%d" % (i, shards)] for i in range(shards)]
+        cmds = [[vh, "lib-replay", path, evs[i], "--shard", "%d/%d" % (i, shards)] + (["--iwe", iwe] if iwe else []) for i in range(shards)]
         for rc, out in parallel(cmds, 3000):
             if rc != 0:
                 raise ToolError("lib-replay failed: " + out[-2000:])
